@@ -3,7 +3,8 @@
 Case format
 -----------
 {"op": "replay", "buffer": null | n, "window": null | w,
- "observers": [{"err": bool, "react": [[n, [action, ...]], ...]}, ...],      # as in C20
+ "observers": [{"err": bool, "react": [[n, [action, ...]], ...]}, ...],      # as in C20, plus re-entrant emission
+                                                                             # actions ["next", v] | ["error", name] | ["completed"]
  "calls": [[t, call], ...]}     call = ["sub", i] | ["unsub", i] | ["next", v] | ["error", name] | ["completed"] | ["dispose"]
 
 Every history call is scheduled on a `TestScheduler` at its virtual time `t` (`schedule_absolute`, in list order, so that calls
@@ -29,7 +30,11 @@ THEOREMS = [
     "C22.replay_live",
     "C22.replay_fifo",
     "C22.replay_all_delivered",
+    "C22.replay_one_formula",
+    "C22.spec_subscription",
+    "C22.spec_emission",
     "C22.replay_dispose_stops",
+    "C22.replay_natural",
     "C22.run_reachable",
 ]
 
@@ -44,7 +49,7 @@ def gen_case(rng, tier):
     big = tier == "thorough"
     nobs = rng.choice([1, 2, 2, 3, 3, 4, 4, 5])
     style = rng.choice(["plain", "plain", "window", "window", "window", "react", "react", "lateterm", "dispose", "sametime",
-                        "handlerless"])
+                        "handlerless", "feedback", "feedback"])
     buffer = rng.choice([None, None, 0, 1, 2, 3, 4])
     ncalls = rng.choice([1, 2, 3, 5, 8, 12, 20, 30] + ([45, 60] if big else []))
     if style == "sametime":
@@ -78,6 +83,16 @@ def gen_case(rng, tier):
                     acts = [a for a in acts if a[0] != "dispose" or rng.random() < 0.25]
                 if acts:
                     react.append([n, acts])
+        if style == "feedback" and rng.random() < 0.6:
+            # the callback feeds the subject it listens to (re-entrant on_next / on_completed / on_error), possibly
+            # while it is processing the last item queued for it
+            for n in sorted({rng.choice([0, 0, 1, 1, 2, 3]) for _ in range(rng.choice([1, 1, 2]))}):
+                acts = []
+                for _ in range(rng.choice([1, 1, 2])):
+                    r = rng.random()
+                    acts.append(["next", enc(rng.choice(VALS))] if r < 0.7 else ["completed"] if r < 0.85
+                                else ["error", f"f{rng.randrange(2)}"] if r < 0.92 else ["unsub", rng.randrange(nobs)])
+                react.append([n, acts])
         observers.append({"err": err, "react": react})
     p_term = {"lateterm": 0.2, "handlerless": 0.1, "sametime": 0.01, "window": 0.03}.get(style, 0.05)
     p_disp = {"dispose": 0.12, "handlerless": 0.08, "sametime": 0.0, "window": 0.01}.get(style, 0.02)
@@ -117,9 +132,26 @@ def gen_case(rng, tier):
     return {"op": "replay", "buffer": buffer, "window": window, "observers": observers, "calls": calls}
 
 
+def gen_tramp_case(rng, tier):
+    """the same histories for ReplaySubject() on its default scheduler (CurrentThreadScheduler trampoline): calls made
+    directly at top level with a controlled, monotone `now`; every observer has an on_error handler (an exception escaping
+    from a run action tears the trampoline down: not part of this variant)"""
+    while True:
+        c = gen_case(rng, tier)
+        if len(c["calls"]) > 40:
+            continue
+        break
+    c["op"] = "replay_tramp"
+    for o in c["observers"]:
+        o["err"] = True
+    c["calls"] = sorted(c["calls"], key=lambda tc: tc[0])   # stable: top-level calls happen in time order
+    return c
+
+
 def cases(rng, tier):
-    for _ in range(fw.tier_scale(tier, 3000, 80000)):
-        yield gen_case(rng, tier)
+    n = fw.tier_scale(tier, 3000, 80000)
+    for i in range(n):
+        yield gen_tramp_case(rng, tier) if i % 4 == 3 else gen_case(rng, tier)
 
 
 # ------------------------------------------------------------------------------------------- real code
@@ -132,7 +164,25 @@ class _Env(base._Env):
     def callback(self, i, entry):
         now = int(self.sched.clock)
         self.order.append(["cb", i, now])
-        super().callback(i, [now, entry])
+        self.logs[i].append([now, entry])
+        k = self.cbs[i]
+        self.cbs[i] += 1
+        for act in self.react[i].get(k, ()):
+            try:
+                if act[0] in ("next", "error", "completed"):
+                    # re-entrant emission: the callback feeds the subject it is listening to
+                    self.order.append(["emit", i, int(self.sched.clock), ["N", act[1]] if act[0] == "next"
+                                       else ["E", act[1]] if act[0] == "error" else ["C"]])
+                    if act[0] == "next":
+                        self.subject.on_next(fw.dec(act[1]))
+                    elif act[0] == "error":
+                        self.subject.on_error(InjectedError(act[1]))
+                    else:
+                        self.subject.on_completed()
+                else:
+                    self.do(act)
+            except Exception as e:  # noqa  the user's own try/except around each reaction action
+                self.xs.append([i, err_name(e)])
 
     def do(self, act):
         if act[0] == "sub":
@@ -159,7 +209,7 @@ def impl(case):
     old = signal.signal(signal.SIGALRM, on_alarm)
     signal.alarm(120)
     try:
-        return _impl(case)
+        return _impl_tramp(case) if case["op"] == "replay_tramp" else _impl(case)
     finally:
         signal.alarm(0)
         signal.signal(signal.SIGALRM, old)
@@ -199,6 +249,46 @@ def _impl(case):
     except Exception as e:  # noqa  escaped from a ScheduledObserver.run action
         crashed = err_name(e)
     return {"logs": env.logs, "xs": env.xs, "raised": raised, "crashed": crashed, "order": env.order}
+
+
+def _impl_tramp(case):
+    """ReplaySubject() with its DEFAULT scheduler (CurrentThreadScheduler: a trampoline shared with Observable.subscribe),
+    which is what most users run.  The history calls are made directly at top level; the wall clock the scheduler reads
+    is replaced by a controlled clock set to the call's time (reactivex.scheduler.scheduler.default_now is patched)."""
+    from datetime import datetime, timedelta, timezone
+
+    import reactivex.scheduler.scheduler as schedmod
+    from reactivex.subject import ReplaySubject
+
+    epoch = datetime(1970, 1, 1, tzinfo=timezone.utc)
+
+    class Clock:
+        clock = 0
+
+    clk = Clock()
+    orig = schedmod.default_now
+    schedmod.default_now = lambda: epoch + timedelta(seconds=clk.clock)
+    try:
+        subject = ReplaySubject(case["buffer"], case["window"])
+        env = _Env(case, subject, clk)
+        raised = []
+        for k, (t, c) in enumerate(case["calls"]):
+            clk.clock = max(clk.clock, t)
+            env.order.append(["call", k, int(clk.clock), len(subject.observers)])
+            try:
+                if c[0] == "next":
+                    subject.on_next(fw.dec(c[1]))
+                elif c[0] == "error":
+                    subject.on_error(InjectedError(c[1]))
+                elif c[0] == "completed":
+                    subject.on_completed()
+                else:
+                    env.do(c)
+            except Exception as e:  # noqa
+                raised.append([k, err_name(e)])
+        return {"logs": env.logs, "xs": env.xs, "raised": raised, "crashed": None, "order": env.order}
+    finally:
+        schedmod.default_now = orig
 
 
 def model_request(case):
@@ -262,6 +352,23 @@ def analyse(case, out):
                     for i in subscribed:
                         expected[i].append(terminal)
                     subscribed = set()
+        elif ev[0] == "emit":
+            # a callback of observer ev[1] emits into the subject: accepted like any other emission
+            who, now, n = ev[1], ev[2], ev[3]
+            stats.add("reentrant-emission")
+            if disposed or terminal is not None:
+                continue
+            if n[0] == "N":
+                values.append((now, n[1]))
+                for i in subscribed:
+                    expected[i].append(["N", n[1]])
+            else:
+                terminal = n
+                for i in subscribed:
+                    expected[i].append(terminal)
+                subscribed = set()
+            if who in subscribed or (n[0] != "N"):
+                stats.add("feedback(emitter is a live subscriber)")
         elif ev[0] == "sub":
             j, now = ev[1], ev[2]
             if disposed:
@@ -334,6 +441,7 @@ def nontrivial(case, out):
 
 
 def bucket(case, out):
+    yield "scheduler:" + ("trampoline(default)" if case["op"] == "replay_tramp" else "virtual-time")
     yield "buffer:" + ("None" if case["buffer"] is None else str(case["buffer"]))
     yield "window:" + ("None" if case["window"] is None else "set")
     n = len(case["calls"])
@@ -376,16 +484,19 @@ def shrink(case):
         c = dict(case); c["buffer"] = None; yield c
 
 
-RULE = ("timed call histories of 1..30 calls (thorough: ..60) of sub/unsub/next/error/completed/dispose over 1..5 observers with reaction scripts, "
-        "scheduled on a TestScheduler (arbitrary, also unsorted and equal, virtual times; bursts of >100 same-instant actions that trigger the "
-        "scheduler's spin counter) against ReplaySubject(buffer_size in {None,0..4}, window in {None, shorter / longer than the history, exactly the "
+RULE = ("timed call histories of 1..30 calls (thorough: ..60) of sub/unsub/next/error/completed/dispose over 1..5 observers with reaction scripts (unsubscribe / subscribe / dispose / "
+        "re-entrant on_next, on_error, on_completed into the same subject from inside a callback), "
+        "scheduled on a TestScheduler (3/4 of the cases; arbitrary, also unsorted and equal, virtual times; bursts of >100 same-instant actions that trigger the "
+        "scheduler's spin counter) or made directly on ReplaySubject() with its default CurrentThreadScheduler trampoline and a controlled clock (1/4 of the cases), "
+        "against ReplaySubject(buffer_size in {None,0..4}, window in {None, shorter / longer than the history, exactly the "
         "age of a value at a subscription}); values incl. None/0/False/''/0.0/()/[]/{}; compared: per-observer timed notification sequence, "
         "exceptions per call, exception escaping start(), and the global order of calls / subscriptions / unsubscriptions / callbacks; "
         "non-trivial = at least two call kinds and at least one delivery")
 ASSUMPTIONS = ["single-threaded execution on a virtual-time scheduler (what the property quantifies over); integer virtual times",
-               "every history call is scheduled up front with schedule_absolute and start() is called once",
-               "callbacks do not emit into the subject re-entrantly; user conventions as in C20 (one subscription per observer id, "
-               "reaction actions individually wrapped in try/except)"]
+               "virtual-time cases: every history call is scheduled up front with schedule_absolute and start() is called once; "
+               "default-scheduler cases: calls made at top level, Scheduler.now replaced by a controlled monotone clock, every observer has on_error",
+               "user conventions as in C20 (one subscription per observer id, reaction actions individually wrapped in try/except); "
+               "callbacks MAY emit into the subject re-entrantly (feedback loops are generated, modelled and judged by the oracle)"]
 TRUSTED_EXTRA = ["the model of VirtualTimeScheduler.start / PriorityQueue inside RxModel/SubjReplay.lean (stable (due, insertion) order, clock, "
                  "spin counter) is tied to the code by this correspondence only; C28/C29 own the scheduler's theorems"]
 LEVEL_TEXT = ("Lean theorems over a model of ReplaySubject + per-subscriber ScheduledObserver/AutoDetachObserver + the virtual-time scheduler's queue: "
@@ -394,10 +505,13 @@ LEVEL_TEXT = ("Lean theorems over a model of ReplaySubject + per-subscriber Sche
               "(2) a new subscriber is queued exactly retained(now) ++ terminal-if-any, an accepted notification is queued exactly once for exactly the "
               "current observers and nothing else queues anything; (3) the ScheduledObserver is a FIFO (handed-over ++ still-queued = queued) and the "
               "user has seen exactly what was handed over while live, a prefix afterwards; (4) when start() returns normally every undisposed "
-              "ScheduledObserver is drained (liveness invariant over the scheduler queue); (5) a stopped observer sees nothing more. All by induction "
-              "over the scheduler's steps for unbounded histories, any buffer_size/window (0 and None included), any reaction scripts.")
-LEVEL_NOTE = ("The prefix-then-live statement is split into per-step characterisations plus invariants (FIFO, prefix, drained-at-quiescence) rather than "
-              "one closed formula for the final log; 'later notifications' = those accepted while the observer is in `observers`. The default "
-              "CurrentThreadScheduler (trampoline) variant of ReplaySubject is not modelled (virtual time only, as the property states). An error reaching "
+              "ScheduledObserver is drained (liveness invariant over the scheduler queue); (5) a stopped observer sees nothing more; (6) one formula: queued-for-i equals the expected sequence computed by the property text from the observable "
+              "event order; (7) value-naturality of whole runs. All by induction "
+              "over the scheduler's steps for unbounded histories, any buffer_size/window (0 and None included), any reaction scripts including re-entrant emission (feedback).")
+LEVEL_NOTE = ("replay_one_formula ties the model to a specification fold over the observable event order (the list compared with the real code): queued-for-i = "
+              "retained(T_sub) ++ terminal-if-any ++ notifications accepted while subscribed; user log = a prefix of it, equal at quiescence for live observers. "
+              "The default CurrentThreadScheduler (trampoline) variant `ReplaySubject()` is modelled (RxModel/SubjReplayTramp.lean: nested immediate drain when "
+              "idle, enqueue when active, handle only after the drain) and compared on 1/4 of the cases with a controlled clock, but has no theorems of its own "
+              "(it reuses the proven primitives; its scheduling discipline is covered by correspondence only). An error reaching "
               "an observer without on_error handler escapes from the run action out of start(): modelled (`crashed`) and compared, outside the theorems' "
               "liveness claim. Thread interleavings of ScheduledObserver belong to C32.")
